@@ -90,6 +90,10 @@ def handler_names():
             prev = toks[i - 1] if i > 0 else None
             if prev is not None and prev["t"] == "ident" and prev["s"] == "fn" and re.match(r"^[a-z_][a-z0-9_]*$", s):
                 names.add(s)
+            # methods the generated code calls with method-call syntax (`x.to_owned()`, `.into()`, `.unwrap()`): a handler of that
+            # name becomes a method of a generated trait that may be implemented for the receiver
+            if prev is not None and prev["t"] == "punct" and prev["s"] == "." and re.match(r"^[a-z_][a-z0-9_]*$", s):
+                names.add(s)
             if re.match(r"^[A-Z][A-Za-z0-9]*$", s) and not (prev is not None and prev["t"] == "punct" and prev["s"] in ("#", "'")):
                 snake = re.sub(r"(?<!^)([A-Z])", r"_\1", s).lower()
                 if re.match(r"^[a-z][a-z0-9_]*$", snake):
